@@ -28,7 +28,7 @@ ENGINES = [
      "serves_properties": ["C13"],
      "kind_free_text": "ITU-T T.81 Annex C/F/H lossless process (Huffman tables, DECODE/EXTEND, predictors, edge rules, stuffing, "
                        "SOF3/DHT/SOS grammar) as TLA+; reference encoder generates streams by simulation; trace validation both ways"},
-    {"name": "markers", "path": "spec/Markers.tla spec/MarkersTrace.tla spec/MQ.tla spec/MC_MQ.tla spec/MqTrace.tla",
+    {"name": "markers", "path": "spec/Markers.tla spec/PacketHeader.tla spec/MarkersTrace.tla spec/MQ.tla spec/MC_MQ.tla spec/MqTrace.tla",
      "serves_properties": ["C16", "C20"],
      "kind_free_text": "T.81 B / T.87 C / T.800 A marker-segment grammars as a TLA+ walker; T.800 Annex C MQ coder machine; "
                        "TLC validates every stream the encoders emit and every MQ register trajectory"},
@@ -166,8 +166,10 @@ CHECKS = {
                 text="Every encoder x configuration lattice of C02..C07/C11/C12: the stream must parse completely (segment lengths, "
                      "mandatory order, SIZ/COD/QCD field ranges, SOT/Psot/TLM consistency, tile-part indices, no marker codes in "
                      "packet bodies / MQ segments, JPEG byte stuffing, EOI/EOC at the end) and declare the encoded image.",
-                note="packet headers (T.800 B.10) are length-checked through Psot only, not bit-parsed: seeded change C16-A (a "
-                     "packet-header bit error that the library's decoder tolerates) is not detected"),
+                note="JPEG 2000 packets are read bit by bit by the strict T.800 B.10 reader of spec/PacketHeader.tla; it is used to "
+                     "name the missing-stuffed-byte defect on streams with plain packet structure; streams whose structure the "
+                     "library builds differently from B.6/B.7 (user precincts, empty sub-bands, tile-local geometry) are counted, "
+                     "not judged"),
     "C17": dict(engine="args", level="model_checking", design_ref="DESIGN.md 7/C17",
                 technique="TLC-generated argument tuples replayed into every encoder; TLC trace validation of reject-or-round-trip",
                 text="ArgsGen enumerates every single off-nominal argument and pairs of them (dimensions 0/-1/65535/65536, "
